@@ -8,6 +8,9 @@ import LentilVerif.Gen.FieldDispatch
 import LentilVerif.Lemmas.FieldBroadcast
 import LentilVerif.Gen.FieldMulArray
 import LentilVerif.Gen.FieldInit
+import LentilVerif.Lemmas.FieldMergeFlow
+import LentilVerif.Gen.FieldOverlapPair
+import LentilVerif.Gen.FieldMergeOrigin
 import Mathlib.Algebra.Ring.Defs
 import Mathlib.Tactic.SplitIfs
 import Mathlib.Algebra.GroupWithZero.Defs
@@ -357,6 +360,63 @@ theorem mul_broadcast_spec (a b : Fld K) (h : Gen.mulBothOne a.size b.size = fal
     simp [ha, hb, hs, Fld.ofBroadcast, Fld.broadcastTo]
   · by_cases hs : (decide (a0 = b0) && decide (a1 = b1)) = true <;> simp [ha, hb, hs, Fld.ofBroadcast]
 
+/-- **the 0-d operand path of `_mul_broadcast`, regenerated with shapes that may be `()` (`Gen.mulBroadcastZ`: a shape is the
+triple (ndim, d0, d1), `()` = (0, 1, 1))**: whenever `Field.__mul__` sends the product to `_mul_array` (not both one-element), a
+0-d operand (one sample, what `Wavefront.__init__` creates) differs in shape from the other operand, is broadcast to its 2-D
+shape and inherits its offset — after `_mul_broadcast` **both operands are 2-D arrays, and they are exactly the operands the
+2-D translation `Gen.mulBroadcast` (hence the model `Fld.mul`: `mul_broadcast_spec`) computes from the 1×1 reading of the 0-d
+data**. This is why `ZFld.mul` may run `Fld.mul` on the 1×1 readings. -/
+theorem mul_broadcast_zd_spec (a b : ZFld K) (ha : a.zd = true → a.fld.size1 = true) (hb : b.zd = true → b.fld.size1 = true)
+    (h : Gen.mulBothOne a.fld.size b.fld.size = false) :
+    Gen.mulBroadcastZ (if a.zd then 0 else 2) a.fld.arr.s0 a.fld.arr.s1 a.fld.size a.fld.o0 a.fld.o1
+        (if b.zd then 0 else 2) b.fld.arr.s0 b.fld.arr.s1 b.fld.size b.fld.o0 b.fld.o1 =
+      (let g := Gen.mulBroadcast a.fld.arr.s0 a.fld.arr.s1 a.fld.size a.fld.o0 a.fld.o1
+          b.fld.arr.s0 b.fld.arr.s1 b.fld.size b.fld.o0 b.fld.o1
+       (g.1, (2, g.2.1.1, g.2.1.2), g.2.2.1, g.2.2.2.1, (2, g.2.2.2.2.1.1, g.2.2.2.2.1.2), g.2.2.2.2.2)) := by
+  rw [Fld.mulBothOne_eq] at h
+  have ea : decide (a.fld.size = 1) = a.fld.size1 := by
+    rw [Bool.eq_iff_iff, decide_eq_true_eq]; exact Fld.size_eq_one_iff_size1 a.fld
+  have eb : decide (b.fld.size = 1) = b.fld.size1 := by
+    rw [Bool.eq_iff_iff, decide_eq_true_eq]; exact Fld.size_eq_one_iff_size1 b.fld
+  obtain ⟨⟨⟨a0, a1, ag⟩, ao0, ao1⟩, az⟩ := a
+  obtain ⟨⟨⟨b0, b1, bg⟩, bo0, bo1⟩, bz⟩ := b
+  simp only [Gen.mulBroadcastZ, Gen.mulBroadcast, ea, eb]
+  simp only [Fld.size1] at h ha hb ⊢
+  clear ea eb
+  by_cases h1 : (decide (a0 = 1) && decide (a1 = 1)) = true <;> by_cases h2 : (decide (b0 = 1) && decide (b1 = 1)) = true
+  · simp [h1, h2] at h
+  · have hs : (decide (a0 = b0) && decide (a1 = b1)) = false := by
+      simp only [Bool.and_eq_true, decide_eq_true_eq, Bool.and_eq_false_iff, decide_eq_false_iff_not] at h1 h2 ⊢
+      omega
+    have hbz : bz = false := by
+      cases bz
+      · rfl
+      · exact absurd (hb rfl) h2
+    subst hbz
+    cases az <;> simp [h1, h2, hs]
+  · have hs : (decide (a0 = b0) && decide (a1 = b1)) = false := by
+      simp only [Bool.and_eq_true, decide_eq_true_eq, Bool.and_eq_false_iff, decide_eq_false_iff_not] at h1 h2 ⊢
+      omega
+    have haz : az = false := by
+      cases az
+      · rfl
+      · exact absurd (ha rfl) h1
+    subst haz
+    cases bz <;> simp [h1, h2, hs]
+  · have haz : az = false := by
+      cases az
+      · rfl
+      · exact absurd (ha rfl) h1
+    have hbz : bz = false := by
+      cases bz
+      · rfl
+      · exact absurd (hb rfl) h2
+    subst haz hbz
+    by_cases hs : (decide (a0 = b0) && decide (a1 = b1)) = true <;> simp [h1, h2, hs]
+/-- a 0-d operand against a 2×3 array: broadcast to (2, 2, 3) at the array's offset; the array is left alone -/
+example : Gen.mulBroadcastZ 0 1 1 1 0 0 2 2 3 6 (-1) 4 = (1, (2, 2, 3), (-1, 4), 0, (2, 2, 3), (-1, 4)) ∧
+    Gen.mulBroadcastZ 2 2 3 6 (-1) 4 0 1 1 1 0 0 = (0, (2, 2, 3), (-1, 4), 1, (2, 2, 3), (-1, 4)) := ⟨rfl, rfl⟩
+
 /-- **`Field.__mul__` through the regenerated `_mul_broadcast`**: whenever the generated dispatch test sends the product to
 `_mul_array`, the model product is `_mul_array`'s overlap product of the two operands the generated `_mul_broadcast` returns
 (so `mul_emb` / `mul_sem` / `mul_empty_iff` speak about the operands the source computes) -/
@@ -482,6 +542,62 @@ theorem merge_slices_spec (b e : Extent) :
   refine ⟨by simp [Gen.mergeSlice], fun h => ?_⟩
   simp only [Extent.nrow, Extent.ncol]; omega
 example : Gen.mergeSlice (-8) 0 (-6) 0 (-6) (-5) (-6) (-5) = ((2, 4), (0, 2)) := by decide
+
+/-- **the origin branch of `_merge_slices`, regenerated (`Gen.mergeSlicesOrigin`: `rmin == 0 and rmax == 0 and cmin == 0 and
+cmax == 0` → every slice is `Ellipsis`, the whole array)** agrees with the general slice formula the model `mergeL` uses
+everywhere: the test holds exactly on the single-origin-pixel box, there the canvas of `_merge_shape` is (1, 1) (members not all
+0-d) and the general slice of every non-empty member extent inside the box is `0:1, 0:1` — the whole array. So ignoring the
+branch in `mergeL` loses nothing; a change of the branch test breaks this. -/
+theorem merge_slices_origin_spec (b e : Extent) :
+    (Gen.mergeSlicesOrigin b.rmin b.rmax b.cmin b.cmax = true ↔ b = ⟨0, 0, 0, 0⟩) ∧
+    (Gen.mergeSlicesOrigin b.rmin b.rmax b.cmin b.cmax = true → e.rmin ≤ e.rmax ∧ e.cmin ≤ e.cmax →
+      b.rmin ≤ e.rmin ∧ e.rmax ≤ b.rmax ∧ b.cmin ≤ e.cmin ∧ e.cmax ≤ b.cmax →
+      Gen.mergeShape b.rmin b.rmax b.cmin b.cmax 0 = some (1, 1) ∧
+      Gen.mergeSlice b.rmin b.rmax b.cmin b.cmax e.rmin e.rmax e.cmin e.cmax = ((0, 1), (0, 1))) := by
+  obtain ⟨b0, b1, b2, b3⟩ := b
+  constructor
+  · simp only [Gen.mergeSlicesOrigin, Bool.and_eq_true, decide_eq_true_eq, Extent.mk.injEq]
+    constructor
+    · rintro ⟨⟨⟨h1, h2⟩, h3⟩, h4⟩; exact ⟨h1, h2, h3, h4⟩
+    · rintro ⟨h1, h2, h3, h4⟩; exact ⟨⟨⟨h1, h2⟩, h3⟩, h4⟩
+  · intro ho he hin
+    simp only [Gen.mergeSlicesOrigin, Bool.and_eq_true, decide_eq_true_eq] at ho
+    obtain ⟨⟨⟨h1, h2⟩, h3⟩, h4⟩ := ho
+    simp only at h1 h2 h3 h4 hin
+    subst h1 h2 h3 h4
+    have e1 : e.rmin = 0 := by omega
+    have e2 : e.rmax = 0 := by omega
+    have e3 : e.cmin = 0 := by omega
+    have e4 : e.cmax = 0 := by omega
+    refine ⟨by decide, ?_⟩
+    simp [Gen.mergeSlice, e1, e2, e3, e4]
+example : Gen.mergeSlicesOrigin 0 0 0 0 = true ∧ Gen.mergeSlicesOrigin 0 1 0 0 = false ∧ Gen.mergeSlicesOrigin (-1) 0 0 0 = false := by decide
+
+/-! ### the statements of `_merge`, regenerated -/
+section merge_flow
+variable {K : Type} [AddMonoid K]
+
+/-- **`lentil.field._merge`, run statement by statement from its regenerated description (`Gen.FieldMergeFlow`: zero canvas of
+`_merge_shape`, `slices = _merge_slices(fields)`, `out[slc] += field.data` for each field in order, result offset
+`_merge_offset`), is the closed-form model `mergeL`** every merge / reduce theorem of this file is about — for all lists of
+fields (whatever the `np.ones` reading `one` would put on the canvas). Overwriting instead of accumulating, starting from a
+canvas that is not zero, or taking the shape / slices / offset from another helper changes the generated definitions and
+breaks this proof. -/
+theorem merge_flow_spec (one : K) (fs : List (Fld K)) : mergeFlowL one fs = mergeL fs := by
+  dsimp only [mergeFlowL, mergeL, Gen.mergeCanvasShape]
+  cases Gen.mergeShape (boundaryL (fs.map Fld.extent)).rmin (boundaryL (fs.map Fld.extent)).rmax
+      (boundaryL (fs.map Fld.extent)).cmin (boundaryL (fs.map Fld.extent)).cmax 0 with
+  | none => rfl
+  | some shp =>
+    simp only [Gen.mergeCanvasFill, Gen.mergeLoopInPlace, Gen.mergeFieldSlice, Gen.mergeResultOffset, if_true, sumList]
+    simp only [foldl_guarded_add (K := K)]
+    rfl
+
+/-- two overlapping 2×2 fields of ones: the canvas run statement by statement holds 2 on the common pixel -/
+example : ((mergeFlowL (7 : Int) [⟨⟨2, 2, fun _ _ => 1⟩, 0, 0⟩, ⟨⟨2, 2, fun _ _ => 1⟩, 1, 1⟩]).map
+    fun p => (p.arr.s0, p.arr.s1, p.o0, p.o1, p.arr.get 1 1, p.arr.get 0 0, p.arr.get 2 0)) = some (3, 3, 0, 0, 2, 1, 0) := rfl
+
+end merge_flow
 
 /-! ## Bounding box (`lentil.field.boundary`) -/
 
@@ -1005,6 +1121,46 @@ example : (reduceZ [(⟨⟨⟨1, 1, fun _ _ => (2 : Int)⟩, 0, 0⟩, true⟩ : 
     [some (⟨0, 0, 0, 0⟩, 5, 0), some (⟨3, 3, -1, -1⟩, 0, 7)] := by decide
 
 end zerod_reduce
+
+/-! ### the loop body of `reduce` and the pair branch of `overlap`, regenerated -/
+section reduce_flow
+variable {K : Type}
+
+/-- **the loop body of `lentil.field.reduce`, regenerated (`Gen.reduceMerges` for the test, `Gen.reduceThenOut` /
+`Gen.reduceElseOut` for `out.append(_merge(f['field']))` / `out.append(f['field'][0])`), is what the models do with a group**:
+for every non-empty group (groups are never empty) a single member goes out as it is and two or more members go out merged —
+the `match` of `Lentil.reduce`. Appending another member, merging in the wrong branch or changing the size test breaks this. -/
+theorem reduce_group_out_spec {α : Type} (merge : List α → Option α) (l : List α) (h : l ≠ []) :
+    groupOutFlow merge l = (match l with | [f] => some f | l => merge l) := by
+  match l, h with
+  | [a], _ => rfl
+  | a :: b :: t, _ =>
+    have hm : Gen.reduceMerges (((a :: b :: t).length : Nat) : Int) = true := by
+      simp only [Gen.reduceMerges, List.length_cons, decide_eq_true_eq]; omega
+    simp only [groupOutFlow, hm, if_true]; rfl
+
+/-- the same for the 0-d aware model: `GroupZ.out` is the regenerated loop body with `mergeZ` -/
+theorem reduceZ_group_out_spec [Add K] [Zero K] (g : GroupZ K) (h : g.fields ≠ []) :
+    g.out = groupOutFlow mergeZ g.fields := by
+  rw [reduce_group_out_spec mergeZ g.fields h]
+  unfold GroupZ.out
+  match hg : g.fields, h with
+  | [a], _ => rfl
+  | a :: b :: t, _ =>
+    have hm : Gen.reduceMerges (((a :: b :: t).length : Nat) : Int) = true := by
+      simp only [Gen.reduceMerges, List.length_cons, decide_eq_true_eq]; omega
+    simp only [hm, if_true]
+
+/-- **the pair branch of public `overlap`, regenerated (`Gen.overlapPairValue` from
+`return lentil.extent.intersect(fields[0].extent, fields[1].extent)`)**: for two fields `overlapL` is that value on the two
+cached extents -/
+theorem overlap_pair_value_spec (a b : Fld K) :
+    overlapL [a, b] = Gen.overlapPairValue a.extent.rmin a.extent.rmax a.extent.cmin a.extent.cmax
+      b.extent.rmin b.extent.rmax b.extent.cmin b.extent.cmax := rfl
+example : groupOutFlow (fun _ => none) [(5 : Int)] = some 5 ∧ groupOutFlow (fun l => some l.sum) [(5 : Int), 6, 7] = some 18 ∧
+    Gen.overlapPairValue 0 1 0 1 1 2 1 2 = true ∧ Gen.overlapPairValue 0 1 0 1 2 3 0 1 = false := ⟨rfl, rfl, rfl, rfl⟩
+
+end reduce_flow
 
 /-! ## Compositions: a product fed into a merge / reduce (what `Plane.multiply` followed by `Wavefront.intensity` does) -/
 section compose
